@@ -557,7 +557,14 @@ func onlySDKErrors(e *Engine, f *ssa.Function, depth int) bool {
 					}
 					return Reject
 				}
-				return Accept
+				// a dependency call: a storage / keeper API (takes a context) is fine, an error constructor is a
+				// semantic error that stored data could trigger
+				for _, a := range callArgs(c) {
+					if isCtxType(a.Type()) {
+						return Accept
+					}
+				}
+				return Reject
 			}
 			return Continue
 		})
